@@ -144,13 +144,19 @@ def gen_linear(rng, forward: bool):
         if not terms:
             terms = ["0"]
         eqs.append(f"{v} = " + " + ".join(terms).replace("+ -", "- "))
+    lagged_shock = False
+    if rng.chance(0.3):      # a moving-average term: a LAGGED shock (valid, structurally unusual)
+        i = rng.randint(0, n - 1)
+        if re.search(rf"\b{shocks[i]}\b", eqs[i]):
+            eqs[i] += f" + {fmt(rng.choice([0.5, -0.25, 0.25]))}*{shocks[i]}{{{-rng.choice([1, 1, 2])}}}"
+            lagged_shock = True
     used_shocks = [s for s in shocks if any(re.search(rf"\b{s}\b", e) for e in eqs)]
     has_exo = any(re.search(r"\bw\b", e) for e in eqs)
     meas = None
     if rng.chance(0.6):
         meas = "obs = " + " + ".join(f"{fmt(dy(rng, 0.5, 2, 1))}*{v}" for v in names)
     return dict(kind="linear-fwd" if forward else "linear-bwd", linear=True, tvars=names, shocks=used_shocks, exo=["w"] if has_exo else [],
-                params={}, logvars=[], eqs=eqs, meas=meas, assign={"w": dy(rng, -1, 1, 2)} if has_exo else {})
+                params={}, logvars=[], eqs=eqs, meas=meas, assign={"w": dy(rng, -1, 1, 2)} if has_exo else {}, lagged_shock=lagged_shock)
 
 
 def gen_poly(rng, forward: bool, rational: bool):
@@ -197,6 +203,9 @@ def gen_poly(rng, forward: bool, rational: bool):
         if use_exo and (i == 0 or rng.chance(0.4)):
             terms.append(f"{fmt(rng.choice([0.25, -0.25, 0.5]))}*w")
         eqs.append(f"{v} = " + " + ".join(terms).replace("+ -", "- "))
+    if rng.chance(0.4):      # a lagged shock in one equation
+        i = rng.randint(0, n - 1)
+        eqs[i] += f" + {fmt(rng.choice([0.5, -0.25, 0.25]))}*e{names[i]}{{{-rng.choice([1, 1, 2])}}}"
     params = {f"{v}_ss": ss[v] for v in names}
     meas = "obs = " + " + ".join(f"{fmt(dy(rng, 0.5, 2, 1))}*{v}" for v in names) if rng.chance(0.5) else None
     return dict(kind=("poly" if not rational else "rational") + ("-fwd" if forward else "-bwd"), linear=False, tvars=names,
@@ -224,7 +233,7 @@ def gen_rbc(rng):
                 eqs=["1/c = beta*(1/c{+1})*(alpha*z{+1}*k^(alpha-1) + 1 - delta)*exp(ec)",
                      "k = z*k{-1}^alpha + (1-delta)*k{-1} - c",
                      "log(z) = rho*log(z{-1}) + ez" + rng.choice(["", " + 0.125*log(z{-2})", " - 0.125*log(z{-2}) + 0.0625*log(z{-3})"])],
-                meas=None, assign=dict(z=1.0, k=k, c=c))
+                **rng.choice([dict(meas=None), dict(meas="obs = 2*c", log_obs=True), dict(meas="obs = 100*log(c)")]), assign=dict(z=1.0, k=k, c=c))
 
 
 def gen_loglin(rng, forward=True):
@@ -262,7 +271,8 @@ def gen_loglin(rng, forward=True):
     if forward and not any("{+" in e for e in eqs):
         eqs[0] += f" + 0.125*log({names[-1]}{{+1}})"
     return dict(kind="loglin-fwd" if forward else "loglin-bwd", linear=False, tvars=names, shocks=[f"e{v}" for v in names], exo=[], params={},
-                logvars=list(names), eqs=eqs, meas="obs = 100*log(x)" if rng.chance(0.4) else None, assign={v: 1.0 for v in names})
+                logvars=list(names), eqs=eqs, **rng.choice([dict(meas=None), dict(meas="obs = 100*log(x)"), dict(meas="obs = 2*x*y", log_obs=True),
+                                                            dict(meas="obs = 2*x*y", log_obs=True)]), assign={v: 1.0 for v in names})
 
 
 def source_of(spec) -> str:
@@ -277,7 +287,10 @@ def source_of(spec) -> str:
         out += ["!parameters", "    " + ", ".join(spec["params"])]
     out += ["!transition-equations"] + [f"    {e};" for e in spec["eqs"]]
     if spec["meas"]:
-        out += ["!measurement-variables", "    obs", "!measurement-equations", f"    {spec['meas']};"]
+        out += ["!measurement-variables", "    obs"]
+        if spec.get("log_obs"):
+            out += ["!log-variables", "    obs"]
+        out += ["!measurement-equations", f"    {spec['meas']};"]
     return "\n".join(out) + "\n"
 
 
@@ -324,6 +337,13 @@ def gen_scenario(rng, spec, m, nonlinear: bool):
         s = rng.choice(spec["shocks"]) if spec["shocks"] else None
         if s:
             unant.setdefault(s, {})[rng.weighted([(0, 2)] + [(i, 1) for i in range(n)])] = size * rng.choice([1, -1, 0.5, 2, -0.25])
+    if n >= 2 and rng.chance(0.7):
+        # a lagged shock in the program: unanticipated shocks of THAT shock at two dates inside its lag window (a later frame starts there)
+        lag_names = sorted(set(mo.group(1) for e in spec["eqs"] for mo in re.finditer(r"\b(e\w+)\{-\d\}", e)))
+        if lag_names:
+            sname = rng.choice(lag_names); i0 = rng.randint(0, n - 2)
+            unant.setdefault(sname, {})[i0] = size * rng.choice([1, -1, 0.5])
+            unant[sname][i0 + 1] = size * rng.choice([0.5, -0.5, 1])
     n_an = rng.weighted([(0, 3), (1, 2), (2, 1)])
     for _ in range(n_an):
         s = rng.choice(spec["shocks"]) if spec["shocks"] else None
@@ -644,11 +664,15 @@ def judge_run(ctx: Ctx, case, m, spec, db, span, method, terminal, out, info, fo
                 u = in_tab.get(sname, {}).get(s, 0.0)
                 if (sname, s) in endo_pts and s == fa:
                     u = f_sh.get(sname, {}).get(s, float("nan"))          # endogenized: an output of this frame
+                if (sname, s) in endo_pts and s < fa:
+                    u = out_tab.get(sname, {}).get(s, float("nan"))       # endogenized by an earlier frame (read through a lagged shock)
                 if method == "stacked_time" and s > fa:
                     u = 0.0      # not known when the frame's expectations are formed
                 a = in_tab.get("ant_" + sname, {}).get(s, 0.0)
                 if ("ant_" + sname, s) in endo_pts and s >= fa:
                     a = f_sh.get("ant_" + sname, {}).get(s, float("nan"))  # endogenized: an output of this frame
+                if ("ant_" + sname, s) in endo_pts and s < fa:
+                    a = out_tab.get("ant_" + sname, {}).get(s, float("nan"))
                 sh_tab[sname][s] = (0.0 if u != u else u) + (0.0 if a != a else a)
         V.add(base_lo, base_hi, sh_tab)
         V.add(base_lo, base_hi, {w: in_tab.get(w, {}) for w in spec["exo"]})
@@ -687,7 +711,9 @@ def judge_run(ctx: Ctx, case, m, spec, db, span, method, terminal, out, info, fo
                     return n_checked
 
     # (4) linear model: coincide with the first-order simulation
-    if spec["linear"] and fo_out is not None and (terminal == "first_order" or m.max_lead == 0):
+    if spec["linear"] and spec.get("lagged_shock"):
+        ctx.count("linear-agreement:not-demanded:lagged-shock")      # candidate finding on the first-order side, see notes/C06.md
+    elif spec["linear"] and fo_out is not None and (terminal == "first_order" or m.max_lead == 0):
         fo_tab = table_of(fo_out, spec["tvars"], start, span[-1], vid)
         for nm in spec["tvars"]:
             for s in range(base_lo, base_hi + 1):
@@ -1097,6 +1123,66 @@ def gen_history_case(rng, kind=None):
     steps = [[0, "same", rng.choice(methods)], [1, "same", rng.choice(methods)], [1, "same", rng.choice(methods)],
              [2, "copy", rng.choice(methods)], [0, "same", rng.choice(methods)]]
     return [spec0, spec1, spec2], steps
+
+
+# ---------------------------------------------------------------------------------------
+# a call that RETURNS NORMALLY (default when_fails) must have succeeded in every frame
+# ---------------------------------------------------------------------------------------
+
+def gen_failure_case(rng, kind):
+    """several frames, a large unanticipated shock early and a tiny one in the last period, a cap on Newton's iterations: the early frame
+    tends to stop unconverged while the last one converges"""
+    spec = gen_spec(rng, kind)
+    m = build_model(spec)
+    if m is None or not spec["shocks"]:
+        return None
+    sc = gen_scenario(rng, spec, m, True)
+    sc.update(n=rng.choice([3, 4, 6]), ant={}, init={}, missing={}, term_data=False)
+    big = rng.choice([1.0, 1.5, -1.0, 2.0]) * (0.5 if kind in ("solow", "rbc") else 1.0)
+    sc["unant"] = {spec["shocks"][0]: {0: big, sc["n"] - 1: 0.0009765625}}
+    return spec, sc
+
+
+def run_failure_case(ctx: Ctx, spec, sc, only_cfg=None):
+    m = build_model(spec)
+    if m is None:
+        return 0
+    db, span = build_db(spec, m, sc)
+    cfgs = [dict(method=meth, max_iterations=k) for meth in (["stacked_time", "period_by_period"] if not m.max_lead else ["stacked_time"]) for k in (1, 2, 3)]
+    if only_cfg is not None:
+        cfgs = [only_cfg]
+    judged = 0
+    for cfg in cfgs:
+        kw = {"solver_settings": {"max_iterations": cfg["max_iterations"], "step_tolerance": float("inf")}}
+        note_settings(kw)
+        case = {"spec": spec, "scenario": sc, "failure_config": cfg}
+        try:
+            with quiet():      # default when_fails: the call has to raise when any frame fails
+                out, info = m.simulate(db, span, method=cfg["method"], return_info=True, remove_terminal=False, **kw)
+        except Exception as e:
+            ctx.count(f"failure-stream:reported:{type(e).__name__}")
+            continue
+        statuses = [st.is_success for st in info["exit_status"]]
+        ctx.count("failure-stream:returned-normally")
+        if not all(statuses):
+            ctx.fail("failure-not-reported", case, f"{cfg['method']} with max_iterations={cfg['max_iterations']} returned normally (default when_fails) although frame(s) "
+                     f"{[i for i, ok in enumerate(statuses) if not ok]} of {len(statuses)} ended with {[str(st) for st in info['exit_status'] if not st.is_success][:2]}: "
+                     "the returned path has unconverged periods")
+            continue
+        k = judge_run(ctx, case, m, spec, db, span, cfg["method"], "first_order" if cfg["method"] == "stacked_time" else "data", out, info)
+        ctx.evaluations += 1
+        judged += 1
+        ctx.count("oracle:residuals-recomputed", k)
+    # how often the interesting pattern occurs (measured with when_fails="silent")
+    try:
+        _, info, _ = run_simulate(m, db, span, "stacked_time", solver_settings={"max_iterations": 2, "step_tolerance": float("inf")})
+        st = [x.is_success for x in info["exit_status"]]
+        if len(st) > 1 and st[-1] and not all(st):
+            ctx.count("failure-stream:early-frame-fails-last-succeeds")
+            ctx.nontriv((spec["kind"], "early-fail", len(st)))
+    except Exception:
+        pass
+    return judged
 
 
 # ---------------------------------------------------------------------------------------
@@ -1694,13 +1780,17 @@ def glue_finding_item(ctx: Ctx):
 # entry points
 # ---------------------------------------------------------------------------------------
 
-KINDS = ["lin-f", "lin-b", "poly-f", "poly-b", "rat-f", "rat-b", "solow", "rbc", "loglin-f", "loglin-b"]
+def has_lagged_shock(spec):
+    return any(re.search(r"\be\w+\{-\d\}", e) for e in spec["eqs"])
+
+
+KINDS = ["lin-f", "lin-b", "poly-f", "poly-b", "rat-f", "rat-b", "solow", "rbc", "loglin-f", "loglin-b", "loglin-fm", "poly-ls", "lin-ls", "poly-f-ls"]
 
 
 def gen_spec(rng, kind=None):
     if kind is None:
         kind = rng.weighted([("lin-f", 4), ("lin-b", 3), ("poly-f", 2), ("poly-b", 1), ("rat-f", 1), ("rat-b", 1), ("solow", 1), ("rbc", 1),
-                             ("loglin-f", 2), ("loglin-b", 1)])
+                             ("loglin-f", 2), ("loglin-b", 1), ("loglin-fm", 1)])
     if kind == "lin-f": return gen_linear(rng, True)
     if kind == "lin-b": return gen_linear(rng, False)
     if kind == "poly-f": return gen_poly(rng, True, False)
@@ -1708,6 +1798,16 @@ def gen_spec(rng, kind=None):
     if kind == "rat-f": return gen_poly(rng, True, True)
     if kind == "rat-b": return gen_poly(rng, False, True)
     if kind == "solow": return gen_solow(rng)
+    if kind in ("poly-ls", "lin-ls", "poly-f-ls"):      # a program with a LAGGED shock (moving-average term), guaranteed
+        for _ in range(12):
+            spec = gen_poly(rng, kind == "poly-f-ls", False) if kind.startswith("poly") else gen_linear(rng, False)
+            if has_lagged_shock(spec):
+                break
+        return spec
+    if kind == "loglin-fm":      # forward-looking, and the MEASUREMENT variable is a log-variable too
+        spec = gen_loglin(rng, True)
+        spec.update(meas="obs = 2*x*y", log_obs=True)
+        return spec
     if kind == "loglin-f": return gen_loglin(rng, True)
     if kind == "loglin-b": return gen_loglin(rng, False)
     return gen_rbc(rng)
@@ -1718,7 +1818,9 @@ def replay_corpus(ctx: Ctx):
         payload = json.load(open(path))
         case = payload.get("case", payload)
         try:
-            if "history" in case:
+            if "failure_config" in case:
+                run_failure_case(ctx, case["spec"], case["scenario"], only_cfg=case["failure_config"])
+            elif "history" in case:
                 run_history_case(ctx, case["history"], case["scenario"], case["steps"])
             elif "scenarios" in case:
                 run_variant_case(ctx, case["spec"], case["scenarios"], case.get("plan"), only_cfg=case.get("config"), model_nv=case.get("model_variants"))
@@ -1782,6 +1884,15 @@ def run(ctx: Ctx):
                 ctx.sample({"source": source_of(spec), "variant_scenarios": scs, "plan": plan})
         except Exception as e:
             ctx.count(f"variants:raised:{type(e).__name__}")
+    # calls that must REPORT their failure: several frames, an early frame that cannot converge within the iteration cap
+    for i in range(ctx.n(8, 60)):
+        rng = ctx.rng.fork(f"failure{i}")
+        try:
+            got = gen_failure_case(rng, ["poly-b", "rat-b", "poly-f", "solow", "rat-f", "rbc"][i % 6])
+            if got is not None:
+                run_failure_case(ctx, *got)
+        except Exception as e:
+            ctx.count(f"failure-stream:raised:{type(e).__name__}")
     # histories on one model object: simulate, re-parameterise, simulate again, copy, ...
     for i in range(ctx.n(6, 60)):
         rng = ctx.rng.fork(f"history{i}")
@@ -1856,6 +1967,9 @@ def search(ctx: Ctx, seeds):
             run_case(ctx, spec, sc)
             scs, plan = gen_variant_case(rng.fork("variants"), spec, m)
             run_variant_case(ctx, spec, scs, plan, model_nv=[len(scs), 1, max(1, len(scs) - 1)][i % 3])
+            got = gen_failure_case(rng.fork("failure"), ["poly-b", "rat-b", "poly-f", "solow", "rat-f", "rbc"][i % 6])
+            if got is not None:
+                run_failure_case(ctx, *got)
             specs, steps = gen_history_case(rng.fork("history"))
             m0 = build_model(specs[0])
             if m0 is not None:
@@ -1874,7 +1988,9 @@ def replay(ctx: Ctx, payload):
         sc0 = case.get("scenario") or (case.get("scenarios") or [None])[0]
         if spec0 and sc0:
             replay_prior_calls(ctx, spec0, sc0, case["prior_solver_settings"])
-    if isinstance(case, dict) and "history" in case:
+    if isinstance(case, dict) and "failure_config" in case:
+        run_failure_case(ctx, case["spec"], case["scenario"], only_cfg=case["failure_config"])
+    elif isinstance(case, dict) and "history" in case:
         run_history_case(ctx, case["history"], case["scenario"], case["steps"])
     elif isinstance(case, dict) and "scenarios" in case:
         run_variant_case(ctx, case["spec"], case["scenarios"], case.get("plan"), only_cfg=case.get("config"), model_nv=case.get("model_variants"))
